@@ -1,4 +1,870 @@
-pub fn main(_ctx: &rnv_engine::Ctx) -> i32 {
-    eprintln!("not built yet");
-    2
+//! C18 - namespace-scoped console users never see or change data outside their namespaces.
+//!
+//! E3: real `rnacos` processes on loopback (one per worker), fixture data in a small namespace
+//! universe created by the administrator, restricted users created through the admin API.
+//! A case = (privilege group, how the group was stored, role, catalogue endpoint, target
+//! namespace, spelling of the namespace, request variant).  Oracle = differential against the
+//! administrator (see `judge_read` / `judge_write`).  The catalogue is cross-checked against the
+//! routes discovered from `console_config`, and every method of every data route that reaches a
+//! handler must be classified (exit 2 otherwise).
+
+use crate::catalogue::*;
+use crate::fixture::*;
+use crate::srv::*;
+use proptest::prelude::*;
+use rnv_engine::*;
+use serde::{Deserialize, Serialize};
+use serde_json::{json, Value};
+use std::collections::{BTreeMap, BTreeSet};
+use std::sync::atomic::{AtomicUsize, Ordering};
+use std::sync::{Arc, Mutex, OnceLock};
+
+// ------------------------------------------------------------------------------------------
+// case
+
+#[derive(Debug, Clone, Serialize, Deserialize, PartialEq, Eq)]
+pub enum ListSpec {
+    /// `whitelistIsAll` / `blacklistIsAll` = true
+    All,
+    /// explicit list of namespaces (indices into the universe `NS`), possibly empty
+    Ids(Vec<u8>),
+}
+
+impl ListSpec {
+    fn contains(&self, ns: &str) -> bool {
+        match self {
+            ListSpec::All => true,
+            ListSpec::Ids(v) => v.iter().any(|i| NS.get(*i as usize).map(|n| n.0 == ns).unwrap_or(false)),
+        }
+    }
+    fn class(&self) -> &'static str {
+        match self {
+            ListSpec::All => "all",
+            ListSpec::Ids(v) if v.is_empty() => "empty",
+            _ => "explicit",
+        }
+    }
+    fn code(&self) -> String {
+        match self {
+            ListSpec::All => "A".to_string(),
+            ListSpec::Ids(v) => format!("L{}", v.iter().map(|i| i.to_string()).collect::<String>()),
+        }
+    }
+    fn ids(&self) -> Vec<String> {
+        match self {
+            ListSpec::All => vec![],
+            ListSpec::Ids(v) => v.iter().filter_map(|i| NS.get(*i as usize)).map(|n| n.0.to_string()).collect(),
+        }
+    }
+}
+
+#[derive(Debug, Clone, Serialize, Deserialize, PartialEq, Eq)]
+pub enum GroupSpec {
+    /// user created without a `namespacePrivilegeParam` (the only "not enabled" state the API can produce)
+    Unrestricted,
+    Lists { wl: ListSpec, bl: ListSpec },
+}
+
+impl GroupSpec {
+    /// the property's rule: whitelisted and not blacklisted; `ns` is a canonical namespace id
+    pub fn permitted(&self, ns: &str) -> bool {
+        match self {
+            GroupSpec::Unrestricted => true,
+            GroupSpec::Lists { wl, bl } => wl.contains(ns) && !bl.contains(ns),
+        }
+    }
+    fn restricting(&self) -> bool {
+        match self {
+            GroupSpec::Unrestricted => false,
+            GroupSpec::Lists { wl, bl } => !(*wl == ListSpec::All && *bl == ListSpec::Ids(vec![])),
+        }
+    }
+    fn param(&self) -> Option<Value> {
+        match self {
+            GroupSpec::Unrestricted => None,
+            GroupSpec::Lists { wl, bl } => Some(json!({
+                "whitelistIsAll": *wl == ListSpec::All, "whitelist": wl.ids(),
+                "blacklistIsAll": *bl == ListSpec::All, "blacklist": bl.ids()})),
+        }
+    }
+    fn code(&self) -> String {
+        match self {
+            GroupSpec::Unrestricted => "free".to_string(),
+            GroupSpec::Lists { wl, bl } => format!("w{}b{}", wl.code(), bl.code()),
+        }
+    }
+}
+
+/// how the default namespace is written when the target is the default namespace
+#[derive(Debug, Clone, Copy, Serialize, Deserialize, PartialEq, Eq)]
+pub enum Spelling {
+    Omitted,
+    Empty,
+    Public,
+}
+
+#[derive(Debug, Clone, Serialize, Deserialize)]
+pub struct Case {
+    pub group: GroupSpec,
+    /// the user is created unrestricted and the group is stored afterwards through /v2/user/update
+    pub via_update: bool,
+    /// visitor role where the endpoint admits it (endpoints that need the developer role get a developer)
+    pub visitor: bool,
+    /// catalogue id of the endpoint
+    pub ep: String,
+    /// index into the namespace universe
+    pub target: u8,
+    pub spelling: Spelling,
+    pub variant: u8,
+}
+
+fn list_spec(w_all: u32, w_empty: u32, w_explicit: u32) -> impl Strategy<Value = ListSpec> {
+    prop_oneof![
+        w_all => Just(ListSpec::All),
+        w_empty => Just(ListSpec::Ids(vec![])),
+        w_explicit => prop::collection::vec(0u8..(NS.len() as u8), 1..=2).prop_map(|mut v| {
+            v.sort();
+            v.dedup();
+            ListSpec::Ids(v)
+        }),
+    ]
+}
+
+/// (group, stored via update, visitor role): creating a user and logging in cost two bcrypt rounds
+/// (~0.25 s), so a run draws a palette of users first (from the seed, through the same strategies)
+/// and the cases pick from it; different seeds give different palettes.
+type PaletteEntry = (GroupSpec, bool, bool);
+static PALETTE: OnceLock<Vec<PaletteEntry>> = OnceLock::new();
+
+fn palette_entry() -> impl Strategy<Value = PaletteEntry> {
+    let group = prop_oneof![
+        1 => Just(GroupSpec::Unrestricted),
+        14 => (list_spec(3, 1, 6), list_spec(1, 4, 4)).prop_map(|(wl, bl)| GroupSpec::Lists { wl, bl }),
+    ];
+    (group, prop::bool::weighted(0.3), prop::bool::weighted(0.4))
+}
+
+fn case_strategy() -> impl Strategy<Value = Case> {
+    (
+        any::<u16>(),
+        any::<u16>(),
+        0u8..(NS.len() as u8),
+        prop_oneof![Just(Spelling::Empty), Just(Spelling::Omitted), Just(Spelling::Public)],
+        0u8..16,
+    )
+        .prop_map(|(pal, ep, target, spelling, variant)| {
+            let fallback = vec![(GroupSpec::Lists { wl: ListSpec::Ids(vec![2]), bl: ListSpec::Ids(vec![]) }, false, false)];
+            let palette = PALETTE.get().unwrap_or(&fallback);
+            let (group, via_update, visitor) = palette[pick_idx(pal, palette.len())].clone();
+            Case { group, via_update, visitor, ep: CATALOGUE[pick_idx(ep, CATALOGUE.len())].id.to_string(), target, spelling, variant }
+        })
+}
+
+// ------------------------------------------------------------------------------------------
+// server pool
+
+static POOL: OnceLock<Vec<Mutex<Server>>> = OnceLock::new();
+/// per endpoint: [forbidden non-trivial, permitted non-trivial, cases]
+static COVERAGE: Mutex<BTreeMap<String, [u64; 3]>> = Mutex::new(BTreeMap::new());
+
+fn my_server() -> Option<&'static Mutex<Server>> {
+    let pool = POOL.get()?;
+    if pool.is_empty() {
+        return None;
+    }
+    let t = std::thread::current();
+    let w = t.name().and_then(|n| n.rsplit('-').next().and_then(|x| x.parse::<usize>().ok())).unwrap_or(0);
+    pool.get(w % pool.len())
+}
+
+fn start_pool(ctx: &Ctx, n: usize) -> Result<usize, String> {
+    let root = work_dir(ctx);
+    register_work_dir(&root);
+    // Children are spawned from this (the main) thread; readiness is awaited in parallel.  A server whose
+    // start-up failed (port race with another agent, or the start-up panic noted in the report) is replaced,
+    // a few rounds at most; the run continues with the servers it has got.
+    let mut servers: Vec<Server> = vec![];
+    let mut last_err = String::new();
+    for round in 0..4 {
+        let missing = n.saturating_sub(servers.len());
+        if missing == 0 {
+            break;
+        }
+        let mut procs = vec![];
+        for i in 0..missing {
+            procs.push(spawn_server(&root, servers.len() + i, round)?);
+        }
+        let mut handles = vec![];
+        for p in procs {
+            handles.push(std::thread::spawn(move || -> Result<Server, (Proc, String)> {
+                let http = match Http::new(p.console_port) {
+                    Ok(h) => h,
+                    Err(e) => return Err((p, e)),
+                };
+                match http.wait_ready(&p, std::time::Duration::from_secs(45)) {
+                    Ok(admin) => Ok(Server::new(p, http, admin)),
+                    Err(e) => Err((p, e)),
+                }
+            }));
+        }
+        for h in handles {
+            match h.join() {
+                Ok(Ok(s)) => servers.push(s),
+                Ok(Err((mut p, e))) => {
+                    last_err = format!("{}\n{}", e, p.log_tail());
+                    p.kill();
+                }
+                Err(_) => last_err = "server start thread panicked".to_string(),
+            }
+        }
+    }
+    if servers.is_empty() {
+        return Err(format!("no server could be started: {}", last_err));
+    }
+    let got = servers.len();
+    POOL.set(servers.into_iter().map(Mutex::new).collect()).map_err(|_| "pool already set".to_string())?;
+    Ok(got)
+}
+
+fn build_fixtures() -> Result<(), String> {
+    let pool = POOL.get().ok_or("no pool")?;
+    let errs: Mutex<Vec<String>> = Mutex::new(vec![]);
+    std::thread::scope(|sc| {
+        for s in pool.iter() {
+            let errs = &errs;
+            sc.spawn(move || {
+                if let Ok(mut g) = s.lock() {
+                    if let Err(e) = g.build_fixture() {
+                        errs.lock().unwrap().push(e);
+                    }
+                }
+            });
+        }
+    });
+    let e = errs.into_inner().unwrap_or_default();
+    if e.is_empty() {
+        Ok(())
+    } else {
+        Err(e.join(" | "))
+    }
+}
+
+fn stop_pool() {
+    if let Some(pool) = POOL.get() {
+        for s in pool {
+            if let Ok(mut g) = s.lock() {
+                g.proc_.kill();
+            }
+        }
+    }
+    cleanup_all();
+}
+
+// ------------------------------------------------------------------------------------------
+// catalogue self-tests
+
+/// every discovered console API route is classified and every catalogue route exists
+fn cross_check_routes() -> Result<usize, String> {
+    let discovered = crate::routes::discover(rnacos::web_config::console_config)?;
+    for sentinel in ["/rnacos/api/console/v2/config/list", "/rnacos/api/console/cs/configs", "/rnacos/api/console/v2/mcp/server/publish/history"] {
+        if !discovered.iter().any(|p| p == sentinel) {
+            return Err(format!("route discovery self-test: sentinel {} not found among {} routes", sentinel, discovered.len()));
+        }
+    }
+    let mut api = BTreeSet::new();
+    for p in &discovered {
+        if let Some(rel) = p.strip_prefix(BASE) {
+            api.insert(rel.to_string());
+        } else if p.contains("/api/") {
+            return Err(format!("route discovery: API-looking route outside {}: {}", BASE, p));
+        }
+        // everything else is the static single-page application (index, assets, /manage/.., /p/..): no data
+    }
+    let data: BTreeSet<&str> = CATALOGUE.iter().map(|e| e.route).collect();
+    let non_data: BTreeSet<&str> = NON_DATA_ROUTES.iter().map(|e| e.0).collect();
+    let mut problems = vec![];
+    for rel in &api {
+        if !data.contains(rel.as_str()) && !non_data.contains(rel.as_str()) {
+            problems.push(format!("unclassified console API route {}{}", BASE, rel));
+        }
+    }
+    for r in data.iter().chain(non_data.iter()) {
+        if !api.contains(*r) {
+            problems.push(format!("catalogue route {}{} is not registered by console_config", BASE, r));
+        }
+    }
+    if problems.is_empty() {
+        Ok(api.len())
+    } else {
+        Err(problems.join("; "))
+    }
+}
+
+/// every method of a data route that reaches a handler (as the manager) is in the catalogue
+fn probe_methods(s: &Server) -> Result<usize, String> {
+    let routes: BTreeSet<&str> = CATALOGUE.iter().map(|e| e.route).collect();
+    let mut probed = 0;
+    for route in routes {
+        for m in ["GET", "POST", "PUT", "DELETE", "PATCH"] {
+            if CATALOGUE.iter().any(|e| e.route == route && e.method == m) {
+                continue;
+            }
+            let resp = s.admin_send(&Req::new(m, route))?;
+            probed += 1;
+            let no_handler = resp.status == 404 || resp.status == 405;
+            if !no_handler && !resp.no_permission {
+                return Err(format!("unclassified method: {} {}{} reaches a handler ({})", m, BASE, route, resp.brief()));
+            }
+        }
+    }
+    Ok(probed)
+}
+
+// ------------------------------------------------------------------------------------------
+// oracle
+
+fn marker_re() -> &'static regex::Regex {
+    static RE: OnceLock<regex::Regex> = OnceLock::new();
+    RE.get_or_init(|| regex::Regex::new(r"(nm|sx)-(q[a-z]{3})-([a-z0-9]+)").unwrap())
+}
+
+/// fixture markers in a response body -> (marker, canonical namespace id).  `names`: also count
+/// item names (`nm-`), which a listing must not reveal; a read request carries the name itself,
+/// so only server-side values (`sx-`) count there.
+fn markers(body: &[u8], names: bool) -> BTreeMap<String, String> {
+    let text = String::from_utf8_lossy(body);
+    let mut out = BTreeMap::new();
+    for c in marker_re().captures_iter(&text) {
+        if &c[1] == "nm" && !names {
+            continue;
+        }
+        if let Some(ns) = ns_of_tag(&c[2]) {
+            out.insert(c[0].to_string(), ns.to_string());
+        }
+    }
+    out
+}
+
+/// namespace ids in a namespace listing: (all listed, those that are namespace records)
+fn listed_namespaces(resp: &Resp) -> (BTreeSet<String>, BTreeSet<String>) {
+    let v = resp.json();
+    let mut all = BTreeSet::new();
+    let mut records = BTreeSet::new();
+    if let Some(a) = v["data"].as_array() {
+        for it in a {
+            if let Some(id) = it["namespaceId"].as_str() {
+                all.insert(id.to_string());
+                let ty = it["type"].as_str().unwrap_or("");
+                if ty == "0" || ty.parse::<u32>().map(|f| f & 2 != 0).unwrap_or(false) {
+                    records.insert(id.to_string());
+                }
+            }
+        }
+    }
+    (all, records)
+}
+
+struct Violation {
+    clause: Clause,
+    msg: String,
+}
+
+struct Judged {
+    violations: Vec<Violation>,
+    /// the administrator's run shows there was something of a forbidden / permitted namespace at stake
+    forbidden_at_stake: bool,
+    permitted_at_stake: bool,
+    labels: Vec<String>,
+}
+
+/// Clauses for listings and reads (`named` = canonical namespace the request names, None = none):
+///  R1 nothing of a forbidden namespace is shown;
+///  R2 nothing is shown that the administrator's answer to the same request lacks;
+///  R3 if the request names a permitted namespace (or none), everything of permitted namespaces
+///     that the administrator gets is shown, with the same HTTP status.
+fn judge_read(ep: &Ep, group: &GroupSpec, named: &Option<String>, req: &Req, user: &Resp, admin: &Resp) -> Judged {
+    let names = ep.op == Op::List;
+    let mut um = markers(&user.body, names);
+    let mut am = markers(&admin.body, names);
+    let mut stable_only: BTreeSet<String> = BTreeSet::new();
+    if ep.kind == Kind::Namespace && ep.op == Op::List {
+        let (u_all, u_rec) = listed_namespaces(user);
+        let (a_all, _a_rec) = listed_namespaces(admin);
+        for id in &u_all {
+            um.insert(format!("namespace:{:?}", id), canon_ns(id));
+            if !u_rec.contains(id) {
+                // derived asynchronously from data; may legitimately differ between two requests
+                stable_only.insert(format!("namespace:{:?}", id));
+            }
+        }
+        for id in &a_all {
+            am.insert(format!("namespace:{:?}", id), canon_ns(id));
+        }
+    }
+    let mut v = vec![];
+    let ctx = |what: &str| format!("{} | user group {:?} | request: {} | user got: {} | admin got: {}", what, group, req.describe(), user.brief(), admin.brief());
+    for (m, ns) in &um {
+        if !group.permitted(ns) {
+            v.push(Violation { clause: Clause::ForbiddenSeen, msg: ctx(&format!("item {:?} of forbidden namespace {:?} is shown to the restricted user", m, ns)) });
+        } else if !am.contains_key(m) && !stable_only.contains(m) {
+            v.push(Violation { clause: Clause::NotSubsetOfAdmin, msg: ctx(&format!("item {:?} is shown to the user but not to the administrator", m)) });
+        }
+    }
+    let target_permitted = named.as_ref().map(|n| group.permitted(n)).unwrap_or(true);
+    if target_permitted {
+        for (m, ns) in &am {
+            if group.permitted(ns) && !um.contains_key(m) {
+                v.push(Violation { clause: Clause::PermittedDiffers, msg: ctx(&format!("item {:?} of permitted namespace {:?} is shown to the administrator but not to the user", m, ns)) });
+            }
+        }
+        if user.status != admin.status {
+            v.push(Violation { clause: Clause::PermittedDiffers, msg: ctx(&format!("permitted request: HTTP status {} for the user, {} for the administrator", user.status, admin.status)) });
+        }
+    }
+    let forbidden_at_stake = am.values().any(|ns| !group.permitted(ns));
+    let permitted_at_stake = target_permitted && am.values().any(|ns| group.permitted(ns));
+    let mut labels = vec![];
+    if am.is_empty() {
+        labels.push("trivial:admin_saw_nothing".to_string());
+    }
+    if !target_permitted {
+        labels.push(if um.is_empty() { "read:forbidden_nothing_shown" } else { "read:forbidden_something_shown" }.to_string());
+    }
+    Judged { violations: v, forbidden_at_stake, permitted_at_stake, labels }
+}
+
+/// Clauses for writes (S_fix = fixture state, S1 = administrator's view after the user's request,
+/// S2 = administrator's view after the administrator's identical request from the same state):
+///  W1 the request names a forbidden namespace  => S1 == S_fix (refused, nothing changed anywhere);
+///  W2 otherwise S1 == S2 (same effect as for the administrator) and
+///  W3 no item of a forbidden namespace differs between S_fix and S1.
+fn judge_write(ep: &Ep, group: &GroupSpec, named: &Option<String>, req: &Req, user: &Resp, admin: &Resp, fix: &Snap, s1: &Snap, s2: &Snap) -> Judged {
+    let mut v = vec![];
+    let ctx = |what: &str| format!("{} | user group {:?} | request: {} | user got: {} | admin got: {}", what, group, req.describe(), user.brief(), admin.brief());
+    let target_permitted = named.as_ref().map(|n| group.permitted(n)).unwrap_or(true);
+    if !target_permitted {
+        if s1 != fix {
+            v.push(Violation {
+                clause: Clause::ForbiddenWriteApplied,
+                msg: ctx(&format!("write naming forbidden namespace {:?} changed what the administrator sees: {}", named.clone().unwrap_or_default(), diff(fix, s1))),
+            });
+        }
+    } else {
+        if s1 != s2 {
+            v.push(Violation {
+                clause: Clause::PermittedDiffers,
+                msg: ctx(&format!("permitted write: effect for the user differs from the effect for the administrator: user {} / admin {}", diff(fix, s1), diff(fix, s2))),
+            });
+        }
+        for k in changed_keys(fix, s1) {
+            let ns = ns_of_key(ep.kind, &k);
+            if !group.permitted(&ns) {
+                v.push(Violation {
+                    clause: Clause::ForbiddenNsChanged,
+                    msg: ctx(&format!("write naming permitted namespace {:?} changed item [{}] of forbidden namespace {:?}: {}", named.clone().unwrap_or_default(), k, ns, diff(fix, s1))),
+                });
+                break;
+            }
+        }
+    }
+    let effective = s2 != fix;
+    let mut labels = vec![];
+    if !effective {
+        labels.push("trivial:write_noop_for_admin".to_string());
+    }
+    if !target_permitted {
+        labels.push(if s1 == fix { "write:forbidden_refused" } else { "write:forbidden_applied" }.to_string());
+    }
+    Judged { violations: v, forbidden_at_stake: !target_permitted && effective, permitted_at_stake: target_permitted && effective, labels }
+}
+
+// ------------------------------------------------------------------------------------------
+// one case
+
+struct Resolved {
+    target: Target,
+    /// canonical id of the namespace the request names; None = it names none (all namespaces)
+    named: Option<String>,
+    spelling_label: &'static str,
+}
+
+fn resolve(ep: &Ep, case: &Case, s: &Server) -> Resolved {
+    let idx = (case.target as usize).min(NS.len() - 1);
+    let (ns, spelling_label) = if idx == 0 {
+        match case.spelling {
+            Spelling::Omitted => (None, "ns:omitted"),
+            Spelling::Empty => (Some(String::new()), "ns:empty"),
+            Spelling::Public => (Some("public".to_string()), "ns:public"),
+        }
+    } else {
+        (Some(NS[idx].0.to_string()), "ns:explicit")
+    };
+    let key = format!("{}|{}", NS[idx].0, mcp_name(NS[idx].1));
+    let (mcp_id, mcp_hist) = s.mcp_ids.get(&key).cloned().unwrap_or((0, 0));
+    let named = if ep.id.ends_with("namespaces.list") {
+        None
+    } else if ep.ns_in == NsIn::ById {
+        Some(NS[idx].0.to_string())
+    } else if ns.is_none() && ep.omitted_is_all {
+        None
+    } else if ep.kind == Kind::Namespace && ep.op == Op::Create && matches!(ns.as_deref(), None | Some("")) {
+        // the handlers replace an absent/empty id by a fresh uuid before the privilege check
+        Some("<uuid>".to_string())
+    } else {
+        Some(canon_ns(ns.as_deref().unwrap_or("")))
+    };
+    let spelling_label = if ep.ns_in == NsIn::ById && ep.id != "v2.mcpserver.update" { "ns:by_id" } else { spelling_label };
+    Resolved { target: Target { ns, idx, variant: case.variant, mcp_id, mcp_hist }, named, spelling_label }
+}
+
+fn run_case(case: &Case) -> CaseReport {
+    let Some(cell) = my_server() else {
+        return CaseReport { labels: vec![], nontrivial: false, verdict: Verdict::Discard("no server".into()) };
+    };
+    let mut s = match cell.lock() {
+        Ok(g) => g,
+        Err(p) => p.into_inner(),
+    };
+    let r = run_case_on(case, &mut s);
+    match r {
+        Ok(rep) => rep,
+        Err(e) => {
+            // leave no half-done case behind on this server
+            if let Some(ep) = find_ep(&case.ep) {
+                if ep.op.is_write() && s.broken.is_none() {
+                    if let Ok(cur) = s.snapshot(ep.kind) {
+                        let _ = s.restore(ep.kind, &cur);
+                    }
+                }
+            }
+            let dead = !s.proc_.alive();
+            let msg = if dead { format!("server process died: {} / log tail:\n{}", e, s.proc_.log_tail()) } else { e };
+            static SHOWN: AtomicUsize = AtomicUsize::new(0);
+            if SHOWN.fetch_add(1, Ordering::SeqCst) < 5 {
+                eprintln!("C18 discard: case {:?}: {}", case, msg);
+            }
+            CaseReport { labels: vec!["discard:infrastructure".into()], nontrivial: false, verdict: Verdict::Discard(msg) }
+        }
+    }
+}
+
+fn run_case_on(case: &Case, s: &mut Server) -> Result<CaseReport, String> {
+    if let Some(b) = &s.broken {
+        return Err(format!("server unusable after a failed restore: {}", b));
+    }
+    let ep = find_ep(&case.ep).ok_or_else(|| format!("unknown endpoint id {}", case.ep))?;
+    let developer = ep.dev || !case.visitor;
+    let role = if developer { "1" } else { "2" };
+    let user = format!("u{}r{}{}", case.group.code(), role, if case.via_update { "u" } else { "" });
+    let via_update = case.via_update && case.group != GroupSpec::Unrestricted;
+    let token = s.session(&user, role, case.group.param(), via_update)?;
+    let res = resolve(ep, case, s);
+    let named = res.named.clone();
+    let group = &case.group;
+    let mut labels = vec![
+        format!("kind:{:?}", ep.kind),
+        format!("op:{}", ep.op.name()),
+        (if ep.v2() { "api:v2" } else { "api:v1" }).to_string(),
+        (if developer { "role:developer" } else { "role:visitor" }).to_string(),
+        res.spelling_label.to_string(),
+    ];
+    match group {
+        GroupSpec::Unrestricted => labels.push("group:unrestricted".into()),
+        GroupSpec::Lists { wl, bl } => {
+            labels.push(format!("group:wl_{}+bl_{}", wl.class(), bl.class()));
+            if via_update {
+                labels.push("group:stored_via_update".into());
+            }
+        }
+    }
+    labels.push(
+        match &named {
+            None => "target:all_namespaces",
+            Some(n) if group.permitted(n) => "target:permitted",
+            Some(_) => "target:forbidden",
+        }
+        .to_string(),
+    );
+
+    let judged = if !ep.op.is_write() {
+        let req = build(ep, &res.target);
+        let ur = s.http.send(&token, &req)?;
+        if ur.no_login || ur.no_permission {
+            return Err(format!("unexpected refusal by the login/role middleware for {} as {}: {}", req.describe(), user, ur.brief()));
+        }
+        let ar = s.admin_send(&req)?;
+        judge_read(ep, group, &named, &req, &ur, &ar)
+    } else {
+        let fix = s.fixture.get(&ep.kind).cloned().unwrap_or_default();
+        let req = build(ep, &res.target);
+        // optional administrator-side preparation (same before both runs); S0 = state the request starts from
+        let prep = setup(ep, &res.target);
+        let s0 = match &prep {
+            Some(p) => {
+                s.admin_send(p)?;
+                s.snapshot(ep.kind)?
+            }
+            None => fix.clone(),
+        };
+        let ur = s.http.send(&token, &req)?;
+        if ur.no_login || ur.no_permission {
+            return Err(format!("unexpected refusal by the login/role middleware for {} as {}: {}", req.describe(), user, ur.brief()));
+        }
+        let s1 = s.snapshot(ep.kind)?;
+        if s1 != fix {
+            s.restore(ep.kind, &s1)?;
+        }
+        if let Some(p) = &prep {
+            s.admin_send(p)?;
+            let s0b = s.snapshot(ep.kind)?;
+            if s0b != s0 {
+                return Err(format!("preparation not reproducible: {}", diff(&s0, &s0b)));
+            }
+        }
+        // ids of MCP entries may have changed by the restore: rebuild the administrator's request
+        let res2 = resolve(ep, case, s);
+        let areq = build(ep, &res2.target);
+        let ar = s.admin_send(&areq)?;
+        let s2 = s.snapshot(ep.kind)?;
+        if s2 != fix {
+            s.restore(ep.kind, &s2)?;
+        }
+        let fix = s0;
+        judge_write(ep, group, &named, &req, &ur, &ar, &fix, &s1, &s2)
+    };
+    labels.extend(judged.labels.iter().cloned());
+
+    let restricting = group.restricting();
+    let nt_forbidden = restricting && judged.forbidden_at_stake;
+    let nt_permitted = restricting && judged.permitted_at_stake;
+    {
+        let mut c = COVERAGE.lock().unwrap();
+        let e = c.entry(ep.id.to_string()).or_insert([0; 3]);
+        e[0] += nt_forbidden as u64;
+        e[1] += nt_permitted as u64;
+        e[2] += 1;
+    }
+    let nontrivial = nt_forbidden || nt_permitted;
+    if nontrivial {
+        labels.push("nontrivial".into());
+    }
+
+    let unknown: Vec<&Violation> = judged.violations.iter().filter(|v| known_root(ep, v.clause).is_none()).collect();
+    let verdict = if judged.violations.is_empty() {
+        Verdict::Pass
+    } else if let Some(v) = unknown.first() {
+        labels.push("out:violation".into());
+        Verdict::Violation(format!("[{:?}] {} {}: {}", v.clause, ep.id, ep.sig(), v.msg))
+    } else {
+        let v = &judged.violations[0];
+        let root = known_root(ep, v.clause).unwrap_or("");
+        labels.push(format!("known:{}", root));
+        KNOWN_EXAMPLES.lock().unwrap().entry(format!("C18/{}", ep.sig())).or_insert_with(|| (case.clone(), root.to_string(), v.msg.clone()));
+        Verdict::Known(format!("C18/{}", ep.sig()))
+    };
+    Ok(CaseReport { labels, nontrivial, verdict })
+}
+
+/// first example of every known shape hit in this run: signature -> (case, root cause, message)
+static KNOWN_EXAMPLES: Mutex<BTreeMap<String, (Case, String, String)>> = Mutex::new(BTreeMap::new());
+
+// ------------------------------------------------------------------------------------------
+// deterministic sweep: every endpoint x every target/spelling x two complementary groups
+
+fn sweep_cases() -> Vec<Case> {
+    // every namespace of the universe is permitted by exactly one of the two groups
+    let g1 = GroupSpec::Lists { wl: ListSpec::Ids(vec![0, 2, 4, 5]), bl: ListSpec::Ids(vec![]) };
+    let g2 = GroupSpec::Lists { wl: ListSpec::All, bl: ListSpec::Ids(vec![0, 2, 4, 5]) };
+    let mut out = vec![];
+    for ep in CATALOGUE {
+        let mut variants: Vec<u8> = vec![0, 1];
+        if ep.id == "v2.mcpserver_import.create" {
+            variants.extend([1u8 << 1, 2 << 1, 3 << 1, 4 << 1]);
+        }
+        for (gi, g) in [&g1, &g2].into_iter().enumerate() {
+            for target in 0..NS.len() as u8 {
+                let spellings: &[Spelling] = if target == 0 { &[Spelling::Empty, Spelling::Omitted, Spelling::Public] } else { &[Spelling::Empty] };
+                for sp in spellings {
+                    for var in &variants {
+                        out.push(Case { group: g.clone(), via_update: gi == 1 && target % 2 == 0, visitor: *var == 0, ep: ep.id.to_string(), target, spelling: *sp, variant: *var });
+                    }
+                }
+            }
+        }
+    }
+    out
+}
+
+fn run_list(stats: &Arc<Stats>, cases: Vec<Case>, workers: usize) -> Option<Failure<Case>> {
+    let next = AtomicUsize::new(0);
+    let failure: Mutex<Option<Failure<Case>>> = Mutex::new(None);
+    std::thread::scope(|sc| {
+        for w in 0..workers.max(1) {
+            let (next, failure, cases, stats) = (&next, &failure, &cases, stats);
+            std::thread::Builder::new()
+                .name(format!("rnv-sweep-{}", w))
+                .spawn_scoped(sc, move || loop {
+                    let i = next.fetch_add(1, Ordering::SeqCst);
+                    if i >= cases.len() || failure.lock().unwrap().is_some() {
+                        return;
+                    }
+                    let rep = run_case(&cases[i]);
+                    stats.record(&cases[i], &rep);
+                    if let Verdict::Violation(m) = &rep.verdict {
+                        let mut f = failure.lock().unwrap();
+                        if f.is_none() {
+                            *f = Some(Failure { case: cases[i].clone(), message: m.clone() });
+                        }
+                    }
+                })
+                .ok();
+        }
+    });
+    failure.into_inner().unwrap_or(None)
+}
+
+// ------------------------------------------------------------------------------------------
+
+const RULE: &str = "case = (privilege group: unrestricted | whitelist {all, empty, 1-2 explicit} x blacklist {all, empty, 1-2 explicit} over a 6-namespace universe \
+(4 with fixture data incl. the default one, 1 empty, 1 not existing); group stored at creation or through user/update; role visitor/developer; one of the catalogue's \
+(method, route, operation) entries of both console API versions; target namespace; spelling of the default namespace {omitted, empty, 'public'}; request variant). \
+Phase 1 sweeps every endpoint x target x spelling x variant with two complementary groups, phase 2 draws random cases. \
+Non-trivial = the group restricts AND the administrator's identical request shows something is at stake: for listings/reads the administrator's answer contains a fixture \
+item of a forbidden namespace (or, for permitted targets, of a permitted one); for writes the administrator's identical write changes what the administrator sees.";
+
+fn assumptions() -> Vec<String> {
+    vec![
+        "Privilege groups name the default namespace by the id \"\" - the id every namespace listing of the console reports for it and hence what the UI stores; a literal \"public\" inside a list is not generated.".into(),
+        "The 'enabled' flag of a group cannot be switched off through the console API (UpdateUserInfoParam has no such field, add_user/update_user force it on); the only not-enabled state - a user without namespacePrivilegeParam - is generated as 'Unrestricted' and must behave like the administrator.".into(),
+        "Sessions copy the group at login; every restricted user logs in after its group was stored (no stale-session cases).".into(),
+        "A listing that names a forbidden namespace may answer with a refusal or with an empty listing: both show nothing, the property's 'refused' is judged as 'nothing of that namespace is shown / nothing changed'.".into(),
+        "Manager-role users are not generated: a manager can edit privilege groups (incl. its own), so namespace scoping cannot bind it; routes only a manager reaches are classified non-data.".into(),
+        "MCP server updates send the entry's own namespace, as the console UI does (an update without it moves the server to 'public', a functional defect outside C18).".into(),
+        "One server process per worker is reused across cases; every write case restores the fixture (verified by an administrator snapshot) before the next case.".into(),
+    ]
+}
+
+fn finish_with(ctx: &Ctx, stats: &Arc<Stats>, failure: Option<Failure<Case>>) -> i32 {
+    let cov = COVERAGE.lock().unwrap().clone();
+    stats.set_extra("endpoint_coverage_[forbidden_nontrivial,permitted_nontrivial,cases]", json!(cov));
+    let ex: BTreeMap<String, Value> = KNOWN_EXAMPLES.lock().unwrap().iter().map(|(k, (c, root, m))| (k.clone(), json!({"root_cause": root, "case": c, "message": m}))).collect();
+    stats.set_extra("known_finding_examples", json!(ex));
+    if std::env::var("C18_EMIT_KNOWN_REPLAYS").is_ok() {
+        for (sig, (case, root, msg)) in KNOWN_EXAMPLES.lock().unwrap().iter() {
+            let p = std::path::Path::new(VERIF_ROOT).join("replays").join(format!("C18-known-{}.json", case.ep.replace('.', "-")));
+            let body = json!({"property": "C18", "signature": sig, "root_cause": root, "message": msg, "case": case});
+            std::fs::write(&p, serde_json::to_vec_pretty(&body).unwrap_or_default()).ok();
+        }
+    }
+    finish(ctx, stats, Finish { level: "exploration", rule: RULE.to_string(), assumptions: assumptions(), exhaustive: None }, failure)
+}
+
+pub fn main(ctx: &Ctx) -> i32 {
+    let code = main_inner(ctx);
+    stop_pool();
+    code
+}
+
+fn main_inner(ctx: &Ctx) -> i32 {
+    let stats = Arc::new(Stats::default());
+    // self-test 1: catalogue vs discovered routes
+    match cross_check_routes() {
+        Ok(n) => stats.set_extra("console_api_routes_discovered", json!(n)),
+        Err(e) => {
+            eprintln!("C18 catalogue self-test failed (exit 2): {}", e);
+            return 2;
+        }
+    }
+    let wanted = if ctx.replay.is_some() { 1 } else { cores().min(8) };
+    let workers = match start_pool(ctx, wanted) {
+        Ok(n) => n,
+        Err(e) => {
+            eprintln!("C18: cannot start servers (exit 2): {}", e);
+            return 2;
+        }
+    };
+    // self-test 2: unclassified methods of data routes (before any fixture exists)
+    {
+        let pool = POOL.get().unwrap();
+        let g = pool[0].lock().unwrap();
+        match probe_methods(&g) {
+            Ok(n) => stats.set_extra("unlisted_methods_probed", json!(n)),
+            Err(e) => {
+                eprintln!("C18 catalogue self-test failed (exit 2): {}", e);
+                return 2;
+            }
+        }
+    }
+    if let Err(e) = build_fixtures() {
+        eprintln!("C18: fixture creation failed (exit 2): {}", e);
+        return 2;
+    }
+    stats.set_extra("servers", json!(workers));
+    eprintln!("C18: {} servers with fixtures ready after {:.1} s", workers, ctx.start.elapsed().as_secs_f64());
+
+    if let Some(path) = &ctx.replay {
+        let case: Case = match read_replay(path) {
+            Ok(c) => c,
+            Err(e) => {
+                eprintln!("cannot read replay {}: {}", path.display(), e);
+                return 2;
+            }
+        };
+        let rep = run_case(&case);
+        return finish_replay(ctx, rep, path);
+    }
+
+    // regression tier: committed replays first
+    for p in saved_replays(&ctx.id) {
+        let case: Case = match read_replay(&p) {
+            Ok(c) => c,
+            Err(_) => continue, // replay of an older case format
+        };
+        let rep = run_case(&case);
+        stats.record(&case, &rep);
+        stats.label("regression_replay");
+        if let Verdict::Violation(m) = rep.verdict {
+            println!("violation detail: {}", m);
+            println!("VIOLATION property={} replay={}", ctx.id, p.display());
+            write_evidence(ctx, &stats, &Finish { level: "exploration", rule: RULE.to_string(), assumptions: assumptions(), exhaustive: None }, 1);
+            return 1;
+        }
+    }
+
+    // phase 1: deterministic sweep
+    let sweep = sweep_cases();
+    stats.set_extra("sweep_cases", json!(sweep.len()));
+    if let Some(f) = run_list(&stats, sweep, workers) {
+        return finish_with(ctx, &stats, Some(f));
+    }
+    eprintln!("C18: sweep done after {:.1} s", ctx.start.elapsed().as_secs_f64());
+    // coverage holes: every endpoint must have been exercised non-trivially on both sides
+    {
+        let cov = COVERAGE.lock().unwrap().clone();
+        let mut holes = vec![];
+        for ep in CATALOGUE {
+            let c = cov.get(ep.id).cloned().unwrap_or([0; 3]);
+            if c[0] == 0 {
+                holes.push(format!("{}: no non-trivial forbidden case", ep.id));
+            }
+            if c[1] == 0 {
+                holes.push(format!("{}: no non-trivial permitted case", ep.id));
+            }
+        }
+        if !holes.is_empty() {
+            eprintln!("C18 coverage self-test failed (exit 2): {}", holes.join("; "));
+            stats.set_extra("endpoint_coverage_[forbidden_nontrivial,permitted_nontrivial,cases]", json!(cov));
+            write_evidence(ctx, &stats, &Finish { level: "exploration", rule: RULE.to_string(), assumptions: assumptions(), exhaustive: None }, 0);
+            return 2;
+        }
+    }
+
+    // phase 2: random cases over a palette of users drawn from the seed
+    let k = ctx.tier.pick(14usize, 200usize);
+    let palette = generate_one(&prop::collection::vec(palette_entry(), k..=k), ctx.seed);
+    stats.set_extra("user_palette", json!(palette));
+    let _ = PALETTE.set(palette);
+    let n = ctx.tier.pick(8000u32, 150000u32);
+    let failure = run_cases(ctx, &stats, case_strategy, n, workers, 200, |c: &Case| run_case(c));
+    finish_with(ctx, &stats, failure)
 }
